@@ -179,3 +179,23 @@ Example C03_lin_ok_witness :
      [Call 3 5 OpReadNacked RBlocks; Call 7 9 OpReadNacked RClosed;
       Call 2 10 OpNack (RBool true); Call 1 12 OpAck (RBool false)]%N, true).
 Proof. vm_compute. reflexivity. Qed.
+
+(** * Round "proofs 6": the converse — [lin_ok] accepts ONLY linearizable histories.
+    Whatever stamped call history (any calls, any stamps with invocation <= response, any
+    results) the acceptor accepts has a linearization: a permutation [l] of the calls that
+    respects the real-time order (no call is placed before one that had returned before it was
+    invoked) and whose sequential run on the C03 model ([run] = [step] from [init c0], for every
+    constructor) gives every call exactly its observed result — the first settle wins, later
+    ones return false / true and reads block / find the channel closed as the model says.
+    With [C03_lin_ok_model_accepted]: on the histories the model produces, [lin_ok] is exactly
+    "linearizable w.r.t. the sequential model". *)
+From Coq Require Import Sorting.Sorted Sorting.Permutation.
+From WM Require Import Message.LinOkComplete.
+
+Theorem C03_lin_ok_complete : forall h : list call,
+  (forall c, In c h -> (c_inv c <= c_ret c)%N) -> lin_ok h = true ->
+  exists l, Permutation l h
+    /\ StronglySorted (fun a b => ~ (c_ret b < c_inv a)%N) l
+    /\ forall c0 : ctor, snd (run (init c0) (map c_op l)) = map c_res l.
+Proof. exact lin_ok_complete. Qed.
+Print Assumptions C03_lin_ok_complete.
